@@ -236,6 +236,18 @@ pub fn op_sequences(ctx: &mut Ctx, acc: &mut Acc, check: &str, hostile: bool, ro
             if !ops.iter().any(|o| matches!(o, Op::Compressed)) && st.max_single > 64 * 1024 + 256 * buf.len() {
                 acc.violation("C05|alloc|BinaryInput".to_string(), detail(&format!("single allocation of {} bytes", st.max_single)));
             }
+            // a SliceInput whose cursor already lies behind the data (its fields are public): nothing can be read from it
+            let beyond = buf.len() + 1 + (round as usize % 3);
+            let (d, _) = run(&mut SliceInput { data: &buf, pos: beyond }, &ops, buf.len());
+            for (i, r) in d.iter().enumerate() {
+                match r {
+                    R::Panic(site) => acc.violation(format!("C05|panic:{site}"), detail(&format!("SliceInput with pos {beyond} > len panicked on op {i} {:?}", ops[i]))),
+                    R::Num(_) => acc.violation("C05|read_behind_the_data".to_string(), detail(&format!("SliceInput with pos {beyond} > len returned a number on op {i} {:?}", ops[i]))),
+                    R::Bytes(b) if !b.is_empty() => acc.violation("C05|read_behind_the_data".to_string(), detail(&format!("SliceInput with pos {beyond} > len returned bytes on op {i} {:?}", ops[i]))),
+                    _ => {}
+                }
+            }
+            acc.count("slice_input_cursor_behind_the_data");
             acc.count("hostile_op_sequences");
         }
     }
